@@ -76,4 +76,6 @@ def check(run, replay=None):
                rule="behaviours of Regen.tla sampled by TLC -simulate (seeded), each starting with a generation; distinct = distinct histories",
                samples=[cases[0]["hist"], cases[-1]["hist"]], history_depth=depth, rejected_events=len(rejects),
                focused_histories=len(focus), sampled_histories=nrandom, focused_exhaustive=True)
+    import frame_family
+    fv, fcov = frame_family.frame_stage(run); run.violations += fv; cov.update(fcov)
     return finish(run, "model_checking", cov, ASSUME)
